@@ -18,7 +18,8 @@ applied after each arithmetic operation exactly where numpy rounds (`c - a`, `b 
 ties to even) it is a bit-exact mirror of the numpy code on finite inputs, which is what the
 correspondence harness compares with *equality*.  The only place where the two differ is the edge
 path: in exact arithmetic the intersection point has coordinate `d` *equal* to `p[d]`, in floating
-point it can come out one ulp larger, and then the code's `<=` fails.
+point it can come out one ulp larger, and then the original code's `<=` failed (finding
+`complete2x2-float-rounding`, repaired in /repo by snapping that coordinate: `snap = true`).
 
 Division by zero: the guard `v1[d] ≤ p[d] ≤ v2[d]` with `v2[d] = v1[d]` forces `0/0 = nan`; numpy
 then evaluates `nan < 0 or nan > 1` to `False`, returns the all-`nan` point, and `nan <= x` is
@@ -63,9 +64,9 @@ def vertices : Vec → Vec → List Vec
   | _, _ => [[]]
 
 /-- `line_seg_pt_intersect_at_dim(P1, P2, target_pt, target_dim)`; `none` = `None` or all-`nan`.
-`snap = true` models the repaired routine that ends with
+`snap = true` models the routine as repaired by /repo commit 2e45ea6, which ends with
 `point_on_line[target_dim] = target_pt[target_dim]` (a no-op in exact arithmetic, see
-`Proofs/Pessimistic.lean`); the code as it stands is `snap = false`. -/
+`lineSegAt_snap` in `Proofs/Pessimistic.lean`); the original code is `snap = false`. -/
 def lineSegAt (rnd : Rat → Rat) (snap : Bool) (P1 P2 p : Vec) (d : Nat) : Option Vec :=
   match P1[d]?, P2[d]?, p[d]? with
   | some a, some b, some c =>
